@@ -298,6 +298,10 @@ def run(chk, prog, tier):
             bad += 1
             chk.add(Finding('C07.memory.' + k, f or UNIT, fn, '%s[%s]' % (k, key), msg, line=l))
         chk.sample({'entry': entry, 'paths': len(res)})
+    # the decoder's table lookup stays inside the table for every input byte (shared with C11): part of memory safety here
+    from props import c11
+    en, de = c11.check_tables(chk, prog)
+    chk.guard('decoder byte decisions', c11.check_byte_decisions, chk, prog, model, len(de))
     chk.rule('C07.memory', 'JWK loaders and importers, all paths: no NULL/maybe-NULL dereference (json_string_value only after a string type '
                            'check), no read of an unassigned local, no leak / wrong-family / double release / use after release', total, bad, floor=300)
     chk.rule('C07.item-contract', 'every exit of the key importers and of jwk_process_one: error flag with non-empty message, or known kty with key material stored',
